@@ -7,7 +7,7 @@ ARTEFACTS = ["G1-consts", "G2-rs-portable", "G9-update", "G25-oneshot", "G24-por
 EXTRA_PROPS = [("B3.Props.C01V", "B3/Props/C01V.lean"), ("B3.Props.C01T", "B3/Props/C01T.lean"), ("B3.Props.C01O", "B3/Props/C01O.lean"), ("B3.Props.CapT", "B3/Props/CapT.lean")]   # theorems about the code translated from the sources
 RULE = ("one op per case: `O hash <mode> pat <len> <seed>` at a forced platform; lengths: every length 0..N exhaustively, "
         "the +-1 lattice around multiples of 64/1024/2^k chunks/4-8-16*j chunks; modes hash/keyed(random key)/derive(contexts "
-        "incl. empty, non-ASCII, >1 chunk); keys and inputs are handed over at odd addresses (offset 1..8 in an 8-aligned buffer); non-trivial = input longer than one block; distinct = distinct op line")
+        "incl. empty, non-ASCII, >1 chunk); keys and inputs are handed over at odd addresses (offset 1..8 in an 8-aligned buffer); a second build in the ordinary release profile (no debug assertions, no overflow checks) runs the lattice, the context scripts and every 16th small length; non-trivial = input longer than one block; distinct = distinct op line")
 ASSUMPTIONS = ["lengths above what the Lean driver can hold in memory (a few MiB) are covered by the theorem only",
                "SIMD kernels satisfy the kernel contract (C05)"]
 NOT_PROVED = []
@@ -65,8 +65,16 @@ def stages(tier, seed, witness_search=False):
                 n = (1 << e) * 1024
                 for d in (-1, 0, 1):
                     scripts.append(Script([f"P plat {p}", f"O hash {mode_tok(rng)} {pat(n + d, rng)}"], tags=("big", p)))
-    return [LineStage("oneshot", scripts)]
+    # the ordinary release profile (no debug assertions, no overflow checks): anything evaluated only inside a debug_assert!
+    # disappears there.  The lattice, the context scripts and every 16th small length, at every forced platform.
+    rel = [sc for k, sc in enumerate(scripts) if "small" not in sc.tags or k % 16 == 0]
+    return [LineStage("oneshot", scripts), LineStage("oneshot-no-debug-assertions", rel, profile="relnd")]
 
 
 def replay(d, lean_exe):
+    if d.get("stage") == "oneshot-no-debug-assertions":
+        from .. import core
+        ls = LineStage("replay", [Script(d.get("ops", []))], max_minimise=0, profile="relnd")
+        ok, exe, log = ls.build_impl()
+        return dict(still_fails=bool(core.run_pair(ls.scripts, exe, lean_exe, "rs", None)))
     return replay_line(d, lean_exe)
